@@ -74,7 +74,7 @@ func propHistory(t *rapid.T) {
 	} else {
 		c.scheme = rapid.SampledFrom([]string{"dense", "dense", "long", "fixed32", "fixed4"}).Draw(t, "scheme")
 	}
-	big := rapid.IntRange(0, 11).Draw(t, "big") == 0
+	big := rapid.IntRange(0, 11).Draw(t, "big") == 0 && !fuzzMode
 	poolSize := rapid.IntRange(2, 24).Draw(t, "poolSize")
 	if big {
 		poolSize = rapid.IntRange(110, 200).Draw(t, "bigPool")
